@@ -48,10 +48,11 @@ def _check(args):
     cand = None
     reason = ''
     try:
+        ctx = z3.Context()      # a private context per query: solving must not depend on what was generated before
         if not expect_sat:
             # stages with fewer hypotheses (a proof from a subset of the hypotheses is still a proof):
             # all quantifier-free hypotheses, plus only the k most recent quantified ones
-            full = z3.parse_smt2_string(smt)
+            full = z3.parse_smt2_string(smt, ctx=ctx)
             goal_neg = full[len(full) - 1]
             qf, quant = [], []
             for a in list(full)[:-1]:
@@ -60,7 +61,7 @@ def _check(args):
             for k, share in ((0, 0.08), (4, 0.08), (12, 0.1), (40, 0.12)):
                 if k and k >= len(quant):
                     break
-                s0 = z3.Solver()
+                s0 = z3.Solver(ctx=ctx)
                 s0.set('timeout', max(200, int(timeout_ms * share)))
                 s0.set('smt.mbqi', False)
                 s0.add(*qf)
@@ -70,7 +71,7 @@ def _check(args):
                 if s0.check() == z3.unsat:
                     return (name, PROVED, time.time() - t0, None, 'z3:hyps-qf+last%dq' % k)
         for opts, share in PORTFOLIO:
-            s = z3.Solver()
+            s = z3.Solver(ctx=ctx)
             s.set('timeout', max(200, int(timeout_ms * share)))
             for k, v in opts.items():
                 s.set(k, v)
